@@ -62,8 +62,8 @@ def gen_behaviours(module: str, cfg: str, num: int, depth: int, seed: int, timeo
     return out
 
 
-def _validate_chunk(chunk):
-    v = tlc.validate_traces(chunk)
+def _validate_chunk(chunk, cfg="Manager_Trace.cfg"):
+    v = tlc.validate_traces(chunk, cfg=cfg)
     if v["tlc"]["error"] and not v["by_tid"]:
         raise tlc.TlcError("trace validation failed: " + str(v["tlc"]["error"]) + v["tlc"]["out"][-2000:])
     for t in chunk:
@@ -72,7 +72,7 @@ def _validate_chunk(chunk):
     return v["by_tid"]
 
 
-def run_and_validate(items: List[dict], jobs: int = 8) -> Dict[int, dict]:
+def run_and_validate(items: List[dict], jobs: int = 8, cfg: str = "Manager_Trace.cfg") -> Dict[int, dict]:
     """items: [{"tid", "ev"}] -> tid -> verdict.  Several TLC processes in parallel (each -workers 1)."""
     from concurrent.futures import ThreadPoolExecutor
 
@@ -82,7 +82,7 @@ def run_and_validate(items: List[dict], jobs: int = 8) -> Dict[int, dict]:
     chunks = [items[i::n] for i in range(n)]
     res: Dict[int, dict] = {}
     with ThreadPoolExecutor(max_workers=n) as ex:
-        for r in ex.map(_validate_chunk, chunks):
+        for r in ex.map(lambda c: _validate_chunk(c, cfg), chunks):
             res.update(r)
     return res
 
